@@ -250,6 +250,15 @@ def extract():
                 and _attr_chain(n.test.right).endswith("FLAGS_ONEWAY") and n.body and isinstance(n.body[0], ast.Return) \
                 and n.body[0].value is None and n.orelse and any(_attr_chain(c.func) == "conn.send" for c in _calls_in(ast.Module(body=n.orelse, type_ignores=[]))):
             oneway_noreply = True
+    # --- server: get_next_stream_item re-attaches a lingering stream with linger timestamp 0
+    dobj = _fn(_cls(stree, "DaemonObject"), "get_next_stream_item")
+    reattach = []
+    for n in ast.walk(dobj):
+        if isinstance(n, ast.Assign) and isinstance(n.targets[0], ast.Subscript) and _attr_chain(n.targets[0].value) == "self.daemon.streaming_responses" \
+                and isinstance(n.value, ast.Tuple):
+            reattach.append([(_attr_chain(e) or (repr(e.value) if isinstance(e, ast.Constant) else type(e).__name__)) for e in n.value.elts])
+    if len(reattach) != 1:
+        raise ValueError("get_next_stream_item: expected one re-attach assignment")
     # --- protocol: the seq field is the 6th header field, 16 bit; type filter comes before the payload read
     import struct
     import re as _re
@@ -313,6 +322,8 @@ def replySeqArgs : List String := {_lean_strs(reply_seq)}
 def requestSeqSource : List String := {_lean_strs(seq_src)}
 def excReplySeqArgs : List String := {_lean_strs(exc_call)}
 def onewayNoReply : Bool := {b(oneway_noreply)}
+/-- the tuple get_next_stream_item stores when it re-attaches a stream to the connection that fetches from it -/
+def streamReattach : List String := {_lean_strs(reattach[0])}
 /-- struct format character and byte width of the header's seq field -/
 def seqFieldFormat : String := {json.dumps(fields[seq_pos])}
 def seqFieldBytes : Nat := {struct.calcsize("!" + fields[seq_pos])}
@@ -451,6 +462,25 @@ def setup_cases():
                     script = [ok] * where + [ev] + [ok] * 12
                     out.append({"retries": r, "raw": True, "seq0": 65533 if tok % 2 else 0, "calls": calls, "script": script})
                 tok += 10
+    # a stream that is fetched, loses its connection, is fetched again after the reconnect and keeps being consumed
+    for r in (0, 2):
+        for ev in [("lo",), ("ra",), ("rb",), ("cu", 300), ("du",), ("st", 0), ("in",), ("la", 0)]:
+            for victim in "nfo":
+                calls = [("n", tok + 1), ("f", tok + 2), (victim, tok + 3), ("n", tok + 4), ("f", tok + 5), ("f", tok + 6),
+                         ("n", tok + 7), ("f", tok + 8), ("f", tok + 9)]
+                script = [ok, ok, ok, ev] + [ok] * 20
+                tok += 10
+                out.append({"retries": r, "seq0": 0, "calls": calls, "script": script})
+    # failures that show while SENDING: the connection is reset under a oneway call (which notices nothing), the next
+    # call fails on its send, the one after must be served again
+    for r in (0, 1, 2):
+        for quiet in "oB":
+            for ev in [("ra",), ("cu", 0)]:
+                for nxt in "nxgtbos":
+                    calls = [("n", tok + 1), (quiet, tok + 2), (nxt, tok + 3), ("n", tok + 4), (nxt, tok + 5), ("n", tok + 6)]
+                    script = [ok, ok, ev] + [ok] * 20
+                    tok += 10
+                    out.append({"retries": r, "seq0": 0, "calls": calls, "script": script})
     # one BatchProxy object across submits
     for r in (0, 1):
         for pat in ["Bb", "BBb", "bBb", "BnBb", "BobBn", "bBBbn", "BxBgb", "BbBbBb"]:
@@ -532,7 +562,10 @@ def check_history(ctx, case, recs, net, retries):
         budget = 1 + (retries if kind in "nxso" else 0)
         ident = N.content_identity(rec["value"], rec["exc"]) if tag in ("returned", "raised") else None
         inv = [m for m in rec["msgs"] if m["kind"] == "inv"]
-        if tag.startswith("error:"):
+        if tag == "error:StopIteration" and kind == "f":
+            fail("stream-ended-locally", "stream fetch %d (f%d) raised StopIteration%s although the remote stream never ends: the "
+                 "iterator was turned into an exhausted one" % (idx, tok, " without sending a request" if not rec["processed"] else ""), idx)
+        elif tag.startswith("error:"):
             fail("non-comm-error", "call %d (%s%d) raised %r, neither its own reply nor a communication error" % (idx, kind, tok, rec["exc"]), idx)
         elif tag in ("returned", "raised") and not oneway:
             # (1) own reply: by content, and by the origin of the message the proxy consumed
@@ -542,6 +575,11 @@ def check_history(ctx, case, recs, net, retries):
             if kind == "t":
                 if ident is not None:
                     foreign = "an attribute write returned %r" % (rec["value"],)
+            elif ident is not None and ident[0] == "?" and tag == "raised" and origin is not None and origin["call"] == idx:
+                # the daemon answered this very request with an error that the called method did not raise
+                fail("stream-lost" if kind == "f" else "unexpected-remote-error",
+                     "call %d (%s%d) was answered with %s instead of its result%s"
+                     % (idx, kind, tok, ident[1], " (the stream it fetches from was discarded by the daemon)" if kind == "f" else ""), idx)
             elif ident != (own_kind, tok):
                 foreign = "got the content of %r" % (ident,)
             if foreign is None and (origin is None or origin["call"] != idx):
@@ -582,12 +620,18 @@ def check_history(ctx, case, recs, net, retries):
         if rec["foreign_execs"] != 0:
             fail("other-call-executed", "during call %d (%s%d) the server ran %d method execution(s) that belong to other calls"
                  % (idx, kind, tok, rec["foreign_execs"]), idx)
-        # (5) recovery: after a failed call, the next call over a healthy transport is served correctly
-        if prev is not None and prev["tag"] in COMM_FAIL_TAGS and kind != "f" and rec["events"] and all(e[0] == "ok" for e in rec["events"]):
+        # (5) recovery: after a call failed with a communication error, the next call (any kind but a stream fetch, whose
+        #     iterator is bound to the lost connection by design) is served correctly when the transport is healthy, i.e.
+        #     when the next two events of the script at the start of the call (handshake, request) are both `delivered`.
+        #     (C03_recovers: script ok :: ok :: s.)  The call need not have consumed them: failing without even trying
+        #     the healthy transport is the failure looked for.
+        if prev is not None and prev["tag"] in COMM_FAIL_TAGS and kind != "f" and len(rec["upcoming"]) == 2 \
+                and all(e[0] == "ok" for e in rec["upcoming"]):
             good = (tag in ("returned", "raised")) and (oneway or (inv and inv[-1]["call"] == idx))
             if not good:
-                fail("no-recovery", "call %d failed (%s); the next call %d (%s%d) over a healthy transport ended with %s"
-                     % (prev["idx"], prev["tag"], idx, kind, tok, tag), idx)
+                fail("no-recovery", "call %d failed (%s); the next call %d (%s%d) over a healthy transport ended with %s "
+                     "(proxy state before it: %s; %d script event(s) consumed)"
+                     % (prev["idx"], prev["tag"], idx, kind, tok, tag, prev["state"], rec["consumed"]), idx)
         prev = rec
 
 
